@@ -337,6 +337,76 @@ def no_session_sweep(stage):
     return simnet.run(go)
 
 
+def fault_forms_probe(fault, pending_call, hook):
+    """An established session dies of `fault` - the transport is lost with an exception of some class (a socket error, or whatever
+    escaped from data_received: ValueError, IndexError, a bare Exception), or the transport refuses a write (OSError, or the
+    RuntimeError a closing transport raises) - with or without a request in flight, with or without a stop hook. Afterwards no
+    session is alive: a command is refused with a connection error and writes nothing, the request in flight has ended with a
+    connection error, the stop hook (if any) ran once, and a new attempt is accepted. Returns a list of problems."""
+    async def go(loop):
+        from aioesphomeapi import api_pb2 as pb
+        from aioesphomeapi.core import APIConnectionError
+        net = simnet.Net(loop)
+        problems = []
+        stops = []
+
+        async def on_stop(expected):
+            stops.append(bool(expected))
+        with net.patched():
+            cli, tr = await simnet.connected_client(loop, net, on_stop=on_stop if hook else None)
+            call = None
+            if pending_call:
+                call = asyncio.ensure_future(cli.device_info())
+                await simnet.drain(loop)
+            excs = {"lost:reset": ConnectionResetError(104, "reset"), "lost:value": ValueError("bad state value"), "lost:index": IndexError("index out of range"),
+                    "lost:plain": Exception("boom"), "lost:none": None, "lost:timeout": TimeoutError(110, "timed out")}
+            cmd_out = None
+            if fault.startswith("lost:"):
+                tr.lose(excs[fault])
+            else:
+                tr.write_raises = OSError(32, "broken pipe") if fault == "write:oserror" else RuntimeError("unable to perform operation on <TCPTransport closed=True>; the handler is closed")
+                try:
+                    cli.switch_command(5, True)
+                    cmd_out = "returned"
+                except APIConnectionError:
+                    cmd_out = "L"
+                except Exception as e:  # noqa: BLE001
+                    cmd_out = "raw:" + type(e).__name__
+            await simnet.drain(loop)
+            if cmd_out not in (None, "L"):
+                problems.append(f"the command whose write the transport refused {cmd_out}")
+            if call is not None:
+                if not call.done():
+                    problems.append("the request in flight is still pending")
+                    call.cancel()
+                elif call.cancelled() or not isinstance(call.exception(), APIConnectionError):
+                    problems.append(f"the request in flight ended with {'cancellation' if call.cancelled() else type(call.exception()).__name__}")
+            if hook and stops != [False]:
+                problems.append(f"stop hook calls: {stops} (expected one, unexpected)")
+            tr.write_raises = None
+            n_w = sum(len(t.writes) for t in net.transports)
+            try:
+                cli.switch_command(5, False)
+                problems.append("a command after the session died was accepted")
+            except APIConnectionError:
+                pass
+            except Exception as e:  # noqa: BLE001
+                problems.append(f"a command after the session died raised {type(e).__name__}")
+            if sum(len(t.writes) for t in net.transports) != n_w:
+                problems.append("a command after the session died wrote to the device")
+            try:
+                await asyncio.wait_for(cli.start_connection(), 100)
+            except Exception as e:  # noqa: BLE001
+                problems.append(f"a new attempt was refused: {type(e).__name__}: {str(e)[:50]}")
+            try:
+                await cli.disconnect(force=True)
+            except Exception as e:  # noqa: BLE001
+                problems.append(f"disconnect(force=True) raised {type(e).__name__}")
+            await simnet.drain(loop)
+        return problems
+    return simnet.run(go)
+
+
 def peer_forms_probe(address, peer, names):
     """Sessions of one client configured with `address`, whose sockets report `peer` as the remote end, against devices
     announcing `names` in turn: after every attempt - whatever its outcome - a new attempt must be accepted (never
@@ -437,6 +507,16 @@ def run(rep, tier, seed):
         if bad:
             rep.violation("C19/not-refused-without-session", f"client with no live session ({stage}): entry point(s) that did not raise a connection error / wrote to the device "
                           f"(method, outcome, frames written): {bad[:6]}", {"kind": "no-session-sweep", "stage": stage})
+    for fault in ("lost:reset", "lost:timeout", "lost:value", "lost:index", "lost:plain", "lost:none", "write:oserror", "write:runtime"):
+        for pending_call in (False, True):
+            for hook in (True, False):
+                problems = fault_forms_probe(fault, pending_call, hook)
+                replay = {"kind": "fault-forms", "fault": fault, "pending_call": pending_call, "hook": hook}
+                rep.case(("fault-forms", fault, pending_call, hook), True, sample={"probe": replay, "problems": problems[:3]})
+                rep.bump("probe:fault-forms")
+                if problems:
+                    rep.violation("C19/wedged-after-fault", f"established session{', a request in flight' if pending_call else ''}{'' if hook else ', no stop hook'}, then {fault}: "
+                                  f"{'; '.join(problems[:4])}", replay)
     for address, peer in (("10.0.0.1", ("10.0.0.1", 6053)), ("fd00::7", ("fd00::7", 6053, 0, 0)), ("kitchen.local", ("fd00::7", 6053, 0, 0)),
                           ("kitchen", ("10.0.0.9", 6053)), ("kitchen.local", ("10.0.0.9", 6053)), ("fe80::1%eth0", ("fe80::1%eth0", 6053, 0, 3))):
         for names in (["kitchen", "kitchen", "kitchen"], ["dev", "kitchen", "dev"], ["", "kitchen", ""]):
@@ -466,6 +546,10 @@ def replay(path):
     if d.get("kind") == "no-session-sweep":
         print(no_session_sweep(d["stage"]))
         return 0
+    if d.get("kind") == "fault-forms":
+        problems = fault_forms_probe(d["fault"], d["pending_call"], d["hook"])
+        print(problems)
+        return 1 if problems else 0
     if d.get("kind") == "peer-forms":
         print(peer_forms_probe(d["address"], tuple(d["peer"]), d["names"]))
         return 0
